@@ -1035,4 +1035,235 @@ theorem wise_shape_and_names (w : Wise R) (tf : List (Group R)) (B ch : Nat) (x 
       exact (forall₂_flatMap _ _ hf2 (fun s p hs => (wisePart_good S w tf B ch s p hg hs).2)).symm
 end
 
+
+/-! ## `init_modules` produces well-formed encoders -/
+
+theorem gather_length {α β : Type} (f : α → Option β) (xs : List α) (ys : List β)
+    (h : gather f xs = some ys) : ys.length = xs.length := by
+  induction xs generalizing ys with
+  | nil => simp only [gather] at h; injection h with h; subst h; rfl
+  | cons x xs ih =>
+    simp only [gather] at h
+    cases hx : f x with
+    | none => simp [hx] at h
+    | some y =>
+      cases hxs : gather f xs with
+      | none => simp [hx, hxs] at h
+      | some ys' =>
+        simp only [hx, hxs] at h
+        injection h with h
+        subst h
+        simp [ih ys' hxs]
+
+theorem gather_getElem? {α β : Type} (f : α → Option β) (xs : List α) (ys : List β)
+    (h : gather f xs = some ys) (i : Nat) : ys[i]? = (xs[i]?).bind f := by
+  induction xs generalizing ys i with
+  | nil => simp only [gather] at h; injection h with h; subst h; simp
+  | cons x xs ih =>
+    simp only [gather] at h
+    cases hx : f x with
+    | none => simp [hx] at h
+    | some y =>
+      cases hxs : gather f xs with
+      | none => simp [hx, hxs] at h
+      | some ys' =>
+        simp only [hx, hxs] at h
+        injection h with h
+        subst h
+        cases i with
+        | zero => simp [hx]
+        | succ i => simp [ih ys' hxs i]
+
+section
+variable {R : Type} (S : SOps R)
+
+theorem shapeOk_spec (C ch : Nat) (x : Mat R) (h : shapeOk C ch x = true) :
+    x.length = C ∧ ∀ v ∈ x, v.length = ch := by
+  simp only [shapeOk, Bool.and_eq_true, beq_iff_eq, List.all_eq_true] at h
+  exact h
+
+theorem mkNorm_wf (stats : List (ColStat R)) (n : Norm R) (h : mkNorm S stats = some n) :
+    n.mean.length = stats.length ∧ n.std.length = stats.length := by
+  unfold mkNorm at h
+  cases h1 : gather statMean stats with
+  | none => simp [h1, bind, Option.bind] at h
+  | some m =>
+    cases h2 : gather statStd stats with
+    | none => simp [h1, h2, bind, Option.bind] at h
+    | some s =>
+      simp only [h1, h2, bind, Option.bind, pure] at h
+      injection h with h
+      subst h
+      exact ⟨gather_length _ _ _ h1, by simp [gather_length _ _ _ h2]⟩
+
+/-- what `init_modules` builds from a statistics list of `C` columns is well-formed for `C` columns -/
+theorem mkParams_wf (stats : List (ColStat R)) (ch : Nat) (w : Weights R) (p : Params R)
+    (h : mkParams S stats ch w = some p) : Params.WF p stats.length ch := by
+  cases w with
+  | linear wt b =>
+    simp only [mkParams] at h
+    cases hn : mkNorm S stats with
+    | none => simp [hn, bind, Option.bind] at h
+    | some n =>
+      simp only [hn, bind, Option.bind] at h
+      split at h
+      · rename_i hc
+        simp only [Bool.and_eq_true] at hc
+        injection h with h; subst h
+        obtain ⟨m1, m2⟩ := mkNorm_wf S stats n hn
+        obtain ⟨a1, a2⟩ := shapeOk_spec _ _ _ hc.1
+        obtain ⟨a3, a4⟩ := shapeOk_spec _ _ _ hc.2
+        exact ⟨m1, m2, a1, a3, a2, a4⟩
+      · cases h
+  | stack =>
+    simp only [mkParams] at h
+    cases hn : mkNorm S stats with
+    | none => simp [hn, bind, Option.bind] at h
+    | some n =>
+      simp only [hn, bind, Option.bind, pure] at h
+      injection h with h; subst h
+      exact mkNorm_wf S stats n hn
+  | bucket wt b =>
+    simp only [mkParams] at h
+    cases hq : gather statQuantiles stats with
+    | none => simp [hq, bind, Option.bind] at h
+    | some q =>
+      simp only [hq, bind, Option.bind] at h
+      split at h
+      · rename_i hc
+        simp only [Bool.and_eq_true, beq_iff_eq] at hc
+        injection h with h; subst h
+        obtain ⟨a3, a4⟩ := shapeOk_spec _ _ _ hc.1.2
+        exact ⟨hc.1.1, a3, a4⟩
+      · cases h
+  | periodic li lo =>
+    simp only [mkParams] at h
+    cases hn : mkNorm S stats with
+    | none => simp [hn, bind, Option.bind] at h
+    | some n =>
+      simp only [hn, bind, Option.bind] at h
+      split at h
+      · rename_i hc
+        simp only [Bool.and_eq_true, beq_iff_eq] at hc
+        injection h with h; subst h
+        obtain ⟨m1, m2⟩ := mkNorm_wf S stats n hn
+        exact ⟨m1, m2, hc.1.1, hc.1.2⟩
+      · cases h
+  | excel w1 w2 b1 b2 =>
+    simp only [mkParams] at h
+    cases hn : mkNorm S stats with
+    | none => simp [hn, bind, Option.bind] at h
+    | some n =>
+      simp only [hn, bind, Option.bind] at h
+      split at h
+      · rename_i hc
+        simp only [Bool.and_eq_true] at hc
+        injection h with h; subst h
+        obtain ⟨m1, m2⟩ := mkNorm_wf S stats n hn
+        obtain ⟨a1, a2⟩ := shapeOk_spec _ _ _ hc.1.1.1
+        obtain ⟨a3, a4⟩ := shapeOk_spec _ _ _ hc.1.1.2
+        obtain ⟨a5, a6⟩ := shapeOk_spec _ _ _ hc.1.2
+        obtain ⟨a7, a8⟩ := shapeOk_spec _ _ _ hc.2
+        exact ⟨m1, m2, a1, a3, a5, a7, a2, a4, a6, a8⟩
+      · cases h
+  | embedding table =>
+    simp only [mkParams] at h
+    cases hq : gather statNumCat stats with
+    | none => simp [hq, bind, Option.bind] at h
+    | some ns =>
+      simp only [hq, bind, Option.bind] at h
+      split at h
+      · rename_i hc
+        simp only [Bool.and_eq_true, beq_iff_eq, List.all_eq_true] at hc
+        injection h with h; subst h
+        refine ⟨?_, hc.2⟩
+        simp [embOffsets, cumsum_length, gather_length _ _ _ hq]
+      · cases h
+  | bag mode tables =>
+    simp only [mkParams] at h
+    cases hq : gather statNumMulti stats with
+    | none => simp [hq, bind, Option.bind] at h
+    | some ns =>
+      simp only [hq, bind, Option.bind] at h
+      split at h
+      · rename_i hc
+        simp only [Bool.and_eq_true, beq_iff_eq] at hc
+        injection h with h; subst h
+        show tables.length = stats.length
+        rw [hc.1, gather_length _ _ _ hq]
+      · cases h
+  | timestamp os wt b =>
+    simp only [mkParams] at h
+    cases hq : gather statMinYear stats with
+    | none => simp [hq, bind, Option.bind] at h
+    | some ys =>
+      simp only [hq, bind, Option.bind] at h
+      split at h
+      · cases h
+      · split at h
+        · rename_i hc
+          simp only [Bool.and_eq_true, beq_iff_eq] at hc
+          injection h with h; subst h
+          obtain ⟨a3, a4⟩ := shapeOk_spec _ _ _ hc.1.2
+          exact ⟨gather_length _ _ _ hq, hc.1.1, a3, a4⟩
+        · cases h
+  | linearEmb ws bs =>
+    simp only [mkParams] at h
+    cases hq : gather statDim stats with
+    | none => simp [hq, bind, Option.bind] at h
+    | some ds =>
+      simp only [hq, bind, Option.bind] at h
+      split at h
+      · rename_i hc
+        simp only [Bool.and_eq_true, beq_iff_eq] at hc
+        injection h with h; subst h
+        obtain ⟨a3, a4⟩ := shapeOk_spec _ _ _ hc.2
+        exact ⟨gather_length _ _ _ hq, a3, a4⟩
+      · cases h
+
+theorem mkFill_wf (st : Stype) (na : Option NA) (stats : List (ColStat R)) (fill : Option (Fill R))
+    (h : mkFill S st na stats = some fill) : Fill.WF fill stats.length := by
+  cases na with
+  | none => simp only [mkFill] at h; injection h with h; subst h; trivial
+  | some na =>
+    simp only [mkFill] at h
+    split at h
+    · cases h
+    · cases na <;> simp only at h
+      · cases hq : gather statMean stats with
+        | none => simp [hq] at h
+        | some v => simp only [hq, Option.map_some] at h; injection h with h; subst h; exact gather_length _ _ _ hq
+      · injection h with h; subst h; simp [Fill.WF]
+      · split at h <;> (injection h with h; subst h; simp [Fill.WF])
+      all_goals
+        rename_i na'
+        first
+        | (cases hq : gather (statTime NA.oldest) stats with
+           | none => simp [hq] at h
+           | some v => simp only [hq, Option.map_some] at h; injection h with h; subst h; exact gather_length _ _ _ hq)
+        | (cases hq : gather (statTime NA.newest) stats with
+           | none => simp [hq] at h
+           | some v => simp only [hq, Option.map_some] at h; injection h with h; subst h; exact gather_length _ _ _ hq)
+        | (cases hq : gather (statTime NA.median) stats with
+           | none => simp [hq] at h
+           | some v => simp only [hq, Option.map_some] at h; injection h with h; subst h; exact gather_length _ _ _ hq)
+
+/-- an encoder produced by `init_modules` from the statistics of `C` columns is well-formed for `C` columns
+    (given a post module of the right width) -/
+theorem initModules_wf (st : Stype) (na : Option NA) (stats : List (ColStat R)) (ch : Nat) (w : Weights R)
+    (post : Post R) (e : Encoder R) (hpost : Post.WF post ch)
+    (h : initModules S st na stats ch w post = some e) : Encoder.WF e stats.length ∧ e.ch = ch := by
+  unfold initModules at h
+  cases h1 : mkFill S st na stats with
+  | none => simp [h1, bind, Option.bind] at h
+  | some fill =>
+    cases h2 : mkParams S stats ch w with
+    | none => simp [h1, h2, bind, Option.bind] at h
+    | some p =>
+      simp only [h1, h2, bind, Option.bind, pure] at h
+      injection h with h
+      subst h
+      exact ⟨⟨mkParams_wf S stats ch w p h2, mkFill_wf S st na stats fill h1, hpost⟩, rfl⟩
+end
+
 end TFVerif.Enc
